@@ -47,6 +47,7 @@ Definition tloc (s : state) (t : nat) (th : thread) : Prop :=
   | KDeq n i acc => gF s = Some t /\ i = lenz acc /\ 0 <= i < n
   | KPush n i rest => gF s = Some t /\ 0 <= i /\ i + lenz rest = n /\ i < n
   | Excess => jn s < gC s
+  | Done Wait r => r = 0 /\ gD s = jn s
   | _ => True
   end.
 
@@ -131,10 +132,11 @@ Proof.
   - apply T2. assumption.
   - destruct (T2 H) as (_ & [c | m]); [left; exact c | right; apply Hmem; assumption].
   - intros Hr. destruct (T3 Hr) as [a | b]; [left; exact a | right; apply Hd; exact b].
-  - destruct (main th); try exact T4.
+  - destruct (main th) as [ | | | | | | | | | o r]; try exact T4.
     + destruct T4 as (a & b & c). repeat split; auto; lia.
     + destruct T4 as (a & b & c & d). repeat split; auto; lia.
     + lia.
+    + destruct o; [|exact I]. destruct T4 as (a & b). split; [exact a | apply Hd; exact b].
 Qed.
 
 Lemma low_is_dec s : ginv s -> Z.land (word s) (jmask s) = gD s.
@@ -723,7 +725,8 @@ Proof.
     + (* WRead *)
       unfold low_of in Hst. destruct (Z.land (word s) (jmask s) =? jn s) eqn:E;
         unfold put in Hst; rewrite Hg in Hst; inversion Hst; subst s'; clear Hst.
-      * local_step Hm. exact I.
+      * apply Z.eqb_eq in E. local_step Hm.
+        unfold tloc. sred. split; [reflexivity|]. rewrite <- (low_is_dec s G). exact E.
       * apply Z.eqb_neq in E.
         local_step Hm.
         unfold tloc. sred. split; [exact E|].
@@ -848,11 +851,9 @@ Proof.
   assert (Ei : sumf inflz (repeat thread0 nt) = 0) by (apply sumf_repeat; reflexivity).
   split.
   - constructor; unf; cbn [jn jbits jmask word sq thr gh f_n f_bits f_mask f_state ghost0 gcalls gdec gpush gfinal fheldl app length];
-      rewrite ?Er, ?Ep, ?Ei, ?repeat_length; try lia.
-    + intros _. split; [reflexivity | intros; reflexivity].
-    + intros f Hf. discriminate.
-    + intros x [].
-    + constructor.
+      rewrite ?Er, ?Ep, ?Ei, ?repeat_length; try lia;
+      try (intros f Hf; discriminate Hf); try (intros x Hx; destruct Hx); try (apply NoDup_nil);
+      try (intros _; split; [reflexivity | intros; reflexivity]).
   - intros t th Hg. unfold get_thread in Hg. cbn [thr] in Hg.
     apply nth_error_In in Hg. apply repeat_spec in Hg. subst th.
     unfold tinv, tloc, thread0. cbn [main cb reg].
